@@ -32,6 +32,8 @@ fn main() {
         .unwrap_or(16);
     let (mut shard, mut of) = (0u64, 1u64);
     let (mut out, mut trace, mut only) = (None, None, None);
+    let (mut family, mut limit): (Option<String>, Option<u64>) = (None, None);
+    let mut count: u64 = 2000;
     let mut i = 3;
     while i < args.len() {
         let val = |i: usize| args.get(i + 1).cloned().unwrap_or_else(|| usage());
@@ -42,6 +44,9 @@ fn main() {
             "--shard" => shard = val(i).parse().unwrap_or_else(|_| usage()),
             "--of" => of = val(i).parse().unwrap_or_else(|_| usage()),
             "--out" => out = Some(PathBuf::from(val(i))),
+            "--family" => family = Some(val(i)),
+            "--limit" => limit = Some(val(i).parse().unwrap_or_else(|_| usage())),
+            "--n" => count = val(i).parse().unwrap_or_else(|_| usage()),
             "--trace" => trace = Some(PathBuf::from(val(i))),
             "--only" => {
                 let v = val(i);
@@ -70,8 +75,12 @@ fn main() {
             out,
             trace,
             only,
+            family,
+            limit,
         }),
         "replay" => runner::replay_main(&PathBuf::from(&args[2])),
+        "gen-corpus" => tlsverif::monitors::c18::gen_corpus(&PathBuf::from(&args[2]), seed, count),
+        "fuzz-seeds" => tlsverif::monitors::c18::fuzz_seeds(&PathBuf::from(&args[2]), seed, count),
         _ => usage(),
     };
     std::process::exit(code);
